@@ -27,6 +27,9 @@ THEOREMS = {
                                  'RsomeV.C04.dro_exact_end_to_end'],
     'RsomeV.Props.C02': ['RsomeV.C02.rc_exact_lp', 'RsomeV.C02.rc_exact_conic_partial'],
     'RsomeV.Props.C08': ['RsomeV.C08.lp_dual_strong'],
+    'RsomeV.Props.C04Soc': ['RsomeV.C04Soc.dro_exact_compiled_soc', 'RsomeV.C04Soc.mix_rowsRemoved_false', 'RsomeV.C04Soc.dro_complete_vertex_lift_soc',
+                            'RsomeV.C04Soc.dro_exact_end_to_end_soc', 'RsomeV.C04Soc.dro_complete_atoms', 'RsomeV.C04Soc.dro_exact_atoms',
+                            'RsomeV.C04Soc.dro_exact_end_to_end_conic', 'RsomeV.C04Soc.bx_exact', 'RsomeV.C04Soc.nb_compiled_exact'],
 }
 RULE = c03.RULE + "; plus SAA instances (singleton supports, fixed probabilities) and single-scenario models mirrored as ro models"
 TRUSTED = c03.TRUSTED
